@@ -57,6 +57,11 @@ type fakeConn struct {
 	inner    net.Conn      // a real connection underneath: its Close is called and its result passed on
 	released atomic.Bool   // the harness has torn the real connection down (end of case)
 	lastErr  atomic.Value  // string: what the most recent Close reported ("" = nil)
+	// gated close (pool_slowclose_test.go): Close announces itself on entered and then waits until the
+	// harness opens gate - a Close that takes as long as the schedule says, on the real clock; nil = off
+	gate      chan struct{}
+	entered   chan struct{}
+	enterOnce sync.Once
 }
 
 type fakeAddr string
@@ -86,6 +91,10 @@ func (c *fakeConn) Close() error {
 		if i%64 == 63 {
 			runtime.Gosched()
 		}
+	}
+	if c.gate != nil {
+		c.enterOnce.Do(func() { close(c.entered) })
+		<-c.gate
 	}
 	if c.delay > 0 && time.Now().Before(virtualEra) {
 		// only on a virtual clock (synctest bubbles start at 2000-01-01): the pool's janitor runs on the
